@@ -4,13 +4,15 @@ ignore_directories_patterns / max_content_length, merkle.iter_tree, from_disk.it
 import copy
 import hashlib
 import os
+import re
 import shutil
 import tempfile
 import warnings
 
 from .core import exc_class, hx, unhx
-from .fstree import (FILE_MODES, ROOT_SPELLINGS, collect_ids, count_nodes, enc_tree, gen_name, gen_tree, has_kind, materialise,
-                     shrink_tree, spelled_root, subdirs)
+from .fstree import (CHAIN_FILE, CHAIN_NAME, FILE_MODES, ROOT_SPELLINGS, chain_file, chain_has_file, collect_ids, count_nodes,
+                     enc_chain, enc_tree, gen_name, gen_tree, has_kind, impl_chain, materialise, ref_chain, ref_ids, shrink_tree,
+                     spelled_root, subdirs)
 
 ID = "C13"
 PROPS = "Props/C13.v"
@@ -43,7 +45,12 @@ RULE = ("random file-system trees (depth <= 5, <= 60 nodes, files 0..100 bytes p
         "with '/./' and 'x/../' components, doubled slashes inside, through a symbolic link to an ancestor directory (absolute "
         "or relative), the root itself a symbolic link to the tree (also followed by '/' or '/.'), '<dir>/<link>/../<name>' "
         "where the link points elsewhere so that the lexically collapsed path designates nothing or a different tree "
-        "(decoy), an absolute path whose first component is a symbolic link (shared with C06: harness/fstree.py); the root_path given to ignore_directories_patterns is spelled like the "
+        "(decoy), an absolute path whose first component is a symbolic link (shared with C06: harness/fstree.py); DEEP CHAINS: "
+        "a small tree at the bottom of N nested directories (optionally a file at every k-th level), read with each filter "
+        "kind and a limit, N in 150..900 (ids at every level and the export must equal an iterative bottom-up reference of "
+        "the pruned chain, root id = model) and N in {1000, 1500} (above the interpreter's recursion limit: open known "
+        "finding tree-deeper-than-recursion-limit, demonstrated), more in the thorough tier; built, encoded, hashed and "
+        "removed iteratively, the recursion limit is never raised around the library; the root_path given to ignore_directories_patterns is spelled like the "
         "path given to from_disk or in another spelling of the same absolute path (absolute / relative / trailing slash "
         "/ '/.'), never resolving symbolic links; each case is read with the filter, read again unfiltered from a copy "
         "pruned by an independent routine of the harness (own glob matcher, fnmatch not used), read without limit, and "
@@ -62,6 +69,12 @@ ASSUMPTIONS = ["names within a directory are distinct, non-empty, free of '/' an
                "ignore_named_directories is given a list / tuple / set / frozenset of names (its docstring asks for a list); a "
                "one-shot iterator is outside the checked domain (on the current code it is consumed by the first membership "
                "test when case_sensitive=True - reported, not checked)",
+               "depth: the model and the theorems have no depth limit (C06_model_has_no_depth_limit); the IMPLEMENTATION reads and "
+               "exports trees of depth < the interpreter's recursion limit only (measured: 986 nested directories work, 987 "
+               "raise RecursionError) - open known finding tree-deeper-than-recursion-limit; a RecursionError on a chain of "
+               "more than 940 directories is reported as that finding, every other outcome (wrong id or export at any depth, "
+               "RecursionError on a shallower tree, another exception) is a violation; for deep chains the model gives the "
+               "root id only (the export is compared with the harness's iterative reference)",
                "glob patterns: valid UTF-8 (possibly empty), bracket expressions ASCII-only, no '..' component, no trailing '/', no NUL; "
                "entry names are never '.' or '..' (scandir does not list them); the root_path given to "
                "ignore_directories_patterns and the path given to from_disk denote the same absolute path without resolving "
@@ -403,7 +416,178 @@ def gen(rng, tier):
         cases.append({"tree": t, "filter": flt, "limit": gen_limit(rng, t), "root": shape, "fspell": spell})
     for k in range(20 if tier == "quick" else 400):
         cases.insert(len(FIXED) + k * (len(cases) // (25 if tier == "quick" else 420)), gen_glob_case(rng))
+    chains = gen_chain_cases(rng, tier)
+    for i, ch in enumerate(chains):
+        cases.insert(len(FIXED) + 3 + i * max(1, len(cases) // (len(chains) + 1)), ch)
     return cases
+
+
+# ------------------------------------------------------------------ deep chains (see harness/fstree.py)
+DEPTH_FINDING_FLOOR = 940       # measured on /repo: 986 nested directories are read, 987 raise (default limit, shallow stack)
+FINDING_DEEP = "tree-deeper-than-recursion-limit"
+CHAIN_BOTTOM = D((b"x", R(b"hi", 0o755)), (b"k", D((b"l", L(b"k")), (b"dir", D((b"z", R(b"same")))))), (b"e", D((b"e2", D()))), (b"y", R(b"same")))
+
+
+def _is_chain(c):
+    return bool(c.get("chain"))
+
+
+def gen_chain_cases(rng, tier):
+    pat = lambda *ps: {"pats": [p.hex() for p in ps], "abs": [False] * len(ps)}
+    out = [
+        {"tree": CHAIN_BOTTOM, "chain": 200, "chain_file": 7, "filter": "empty", "limit": None, "root": "linkup_rel", "fspell": "same"},
+        {"tree": D((b"e", D((b"e2", D())))), "chain": 300, "chain_file": 50, "filter": "empty", "limit": None, "root": "real", "fspell": "same"},
+        {"tree": CHAIN_BOTTOM, "chain": 200, "chain_file": 0, "filter": pat(b"*/dir", b"d/d/d/d/d/d/*/e"), "limit": None, "root": "vialink", "fspell": "abs"},
+        {"tree": CHAIN_BOTTOM, "chain": 150, "chain_file": 0, "filter": pat(b"d/d/d/*"), "limit": None, "root": "real", "fspell": "same"},
+        {"tree": CHAIN_BOTTOM, "chain": 500, "chain_file": 0, "filter": {"named": [b"DIR".hex()], "cs": False}, "limit": 3, "root": "real", "fspell": "same"},
+        {"tree": CHAIN_BOTTOM, "chain": 400, "chain_file": 3, "filter": {"named": [b"D".hex()], "cs": False, "as": "tuple"}, "limit": None, "root": "slash1", "fspell": "same"},
+        {"tree": CHAIN_BOTTOM, "chain": 900, "chain_file": 250, "filter": "all", "limit": 5, "root": "real", "fspell": "same"},
+        {"tree": CHAIN_BOTTOM, "chain": 1000, "chain_file": 0, "filter": "empty", "limit": None, "root": "real", "fspell": "same"},
+        {"tree": CHAIN_BOTTOM, "chain": 1500, "chain_file": 400, "filter": pat(b".*"), "limit": None, "root": "rootlink", "fspell": "same"},
+    ]
+    if tier != "quick":
+        for _ in range(16):
+            t = gen_case_tree(rng, big=False)
+            t = {"t": "D", "c": [[n, ch] for n, ch in t["c"] if bytes.fromhex(n) not in (CHAIN_NAME, CHAIN_FILE)]}
+            flt = gen_filter(rng, t)
+            n_ = rng.randrange(20, 150) if _is_pat(flt) else rng.randrange(50, 930)
+            shape, spell = gen_root(rng, flt)
+            out.append({"tree": t, "chain": n_, "chain_file": 0 if _is_pat(flt) else rng.choice([0, 3, 40]), "filter": flt, "limit": None,
+                        "root": shape, "fspell": spell})
+        out.append({"tree": CHAIN_BOTTOM, "chain": 1200, "chain_file": 0, "filter": {"named": [b"zz".hex()], "cs": True}, "limit": None,
+                    "root": "real", "fspell": "same"})
+        out.append({"tree": CHAIN_BOTTOM, "chain": 1400, "chain_file": 100, "filter": "all", "limit": 0, "root": "vialink_rel", "fspell": "same"})
+    return out
+
+
+def _chain_prefix(k):
+    return b"/".join([CHAIN_NAME] * k)
+
+
+def prune_chain(c, flt):
+    """the physically pruned tree of a chain case, in the same compact form (independent reference, iterative over the chain)"""
+    n, kf, bottom = c["chain"], c.get("chain_file", 0), c["tree"]
+
+    def trunc(m):       # everything below level m is gone: level m keeps its own file only
+        return {"tree": {"t": "D", "c": [[CHAIN_FILE.hex(), chain_file(m)]] if chain_has_file(c, m) else []}, "chain": m, "chain_file": kf}
+    if flt == "all":
+        return {"tree": bottom, "chain": n, "chain_file": kf}
+    if flt == "empty":
+        b = prune_tree(bottom, flt)
+        if b["c"]:
+            return {"tree": b, "chain": n, "chain_file": kf}
+        with_file = [l for l in range(n) if chain_has_file(c, l)]
+        return trunc(with_file[-1]) if with_file else {"tree": {"t": "D", "c": []}, "chain": 0, "chain_file": 0}
+    if _is_pat(flt):
+        if kf:
+            raise ValueError("harness: pattern filters on chains are generated without intermediate files")
+        for k in range(1, n + 1):
+            if _pat_excluded(_chain_prefix(k), flt):
+                return trunc(k - 1)
+        return {"tree": _prune_pats(bottom, flt, _chain_prefix(n)), "chain": n, "chain_file": kf}
+    if _ignored(CHAIN_NAME, flt):
+        return trunc(0)
+    return {"tree": prune_tree(bottom, flt), "chain": n, "chain_file": kf}
+
+
+def _chain_file_datas(p):
+    out = [d for _k, d in _files_by_path(p["tree"]).values()]
+    return out + [bytes.fromhex(chain_file(l)["d"]) for l in range(p["chain"]) if chain_has_file(p, l)]
+
+
+def _ref_export_chain(p, lim):
+    """what iter_directory must export for the (pruned) chain p: every directory and file once per distinct id"""
+    ref = ref_chain(p)
+    out = set()
+
+    def content(kind, data):
+        i = _git_blob(data)
+        if kind == "R" and lim is not None and len(data) > lim:
+            out.add(("S", i, len(data)))
+        else:
+            out.add(("C", i, hashlib.sha1(data).hexdigest(), len(data)))
+        return i
+    levels = ref["levels"]
+    for l in range(p["chain"]):
+        targets = [levels[l + 1]]
+        if chain_has_file(p, l):
+            targets.append(content("R", bytes.fromhex(chain_file(l)["d"])))
+        out.add(("D", levels[l], tuple(sorted(targets))))
+    ids = ref_ids(p["tree"])
+
+    def walk(t, prefix):
+        if t["t"] == "D":
+            ts = []
+            for nm, ch in t["c"]:
+                q = prefix + b"/" + bytes.fromhex(nm) if prefix else bytes.fromhex(nm)
+                ts.append(ids[q])
+                walk(ch, q)
+            out.add(("D", ids[prefix], tuple(sorted(ts))))
+        else:
+            content(t["t"], bytes.fromhex(t["d"]) if t["t"] == "R" else bytes.fromhex(t["x"]) if t["t"] == "L" else b"")
+    walk(p["tree"], b"")
+    return sorted([list(x[:2]) + [list(x[2])] if x[0] == "D" else list(x) for x in out])
+
+
+def _impl_chain(c):
+    from swh.model.from_disk import Directory
+    res = {}
+    t, flt, lim, n = c["tree"], c["filter"], c["limit"], c["chain"]
+    with spelled_root(t, c.get("root", "real"), c) as (root, tmp, _real):
+        spelled, lexical = _spell(root, tmp, c.get("fspell", "same"))
+        try:
+            d = Directory.from_disk(path=root, path_filter=_mk_filter(flt, spelled, lexical), max_content_length=lim)
+            res["chain"] = impl_chain(d, n)
+            d0 = Directory.from_disk(path=root, path_filter=_mk_filter(flt, spelled, lexical))
+            res["chain_nolimit"] = impl_chain(d0, n)
+        except Exception as e:
+            res["error"] = exc_class(e) + ":" + str(e)[:80]
+            return res
+        expected = {}
+        for data in _chain_file_datas(prune_chain(c, flt)):
+            expected.setdefault(_git_blob(data), [])
+            if data not in expected[_git_blob(data)]:
+                expected[_git_blob(data)].append(data)
+        try:
+            res["export"], res["export_bad"] = _export_facts(d, expected, lim)
+        except Exception as e:
+            res["export_error"] = exc_class(e) + ":" + str(e)[:80]
+    return res
+
+
+def _oracle_chain(c, ires, mres):
+    what = "a chain of %d nested directories (filter %s)" % (c["chain"], enc_filter(c["filter"])[:40])
+    if "error" in ires:
+        return "from_disk raised %s on %s" % (ires["error"], what)
+    if "export_error" in ires:
+        return "the export raised %s on %s" % (ires["export_error"], what)
+    p = prune_chain(c, c["filter"])
+    ref = ref_chain(p)
+    if ires["chain_nolimit"] != ref:
+        a, b = ires["chain_nolimit"]["levels"], ref["levels"]
+        return ("reading %s differs from the bottom-up reference ids of the physically pruned tree (%d levels read, %d expected, "
+                "root %s vs %s)" % (what, len(a), len(b), a[0], b[0]))
+    if ires["chain"] != ires["chain_nolimit"]:
+        return "max_content_length changes an id (deep chain)"
+    if ires["export_bad"]:
+        return "; ".join(ires["export_bad"][:3])
+    want = _ref_export_chain(p, c["limit"])
+    if ires["export"] != want:
+        only_i = [x for x in ires["export"] if x not in want][:2]
+        only_r = [x for x in want if x not in ires["export"]][:2]
+        return "export of %s differs from the reference: only exported %s, missing %s" % (what, only_i, only_r)
+    return None
+
+
+def finding_key(c, ires, mres, verdict):
+    """open known finding: exactly a chain deeper than the measured threshold whose read (or export) ends in RecursionError
+    while the model answers an id; anything else stays a violation"""
+    if not (isinstance(c, dict) and _is_chain(c) and c["chain"] > DEPTH_FINDING_FLOOR and verdict.get("kind") == "property-violation"):
+        return None
+    err = str(ires.get("error") or ires.get("export_error") or "")
+    if err.startswith("Other(RecursionError)") and isinstance(mres, dict) and re.fullmatch(r"[0-9a-f]{40}", str(mres.get("rootid", ""))):
+        return FINDING_DEEP
+    return None
 
 
 # ------------------------------------------------------------------ glob validation cases (model vs fnmatch.translate + re)
@@ -587,6 +771,8 @@ def _git_blob(data):
 def nontrivial(c):
     if _is_glob(c):
         return len(c["pairs"]) >= 10
+    if _is_chain(c):
+        return True
     t, flt, lim = c["tree"], c["filter"], c["limit"]
     if prune_tree(t, flt) != t:
         return True
@@ -600,6 +786,12 @@ def nontrivial(c):
 def classify(c):
     if _is_glob(c):
         return ["glob-pairs"]
+    if _is_chain(c):
+        flt = c["filter"]
+        return ["chain-depth=" + ("<=500" if c["chain"] <= 500 else "501-%d" % DEPTH_FINDING_FLOOR if c["chain"] <= DEPTH_FINDING_FLOOR
+                                  else ">%d" % DEPTH_FINDING_FLOOR),
+                "chain-filter=" + (flt if isinstance(flt, str) else "patterns" if _is_pat(flt) else "named"),
+                "root=" + c.get("root", "real")]
     t, flt, lim = c["tree"], c["filter"], c["limit"]
     ks = ["filter=" + (flt if isinstance(flt, str) else "patterns" if _is_pat(flt) else "named-cs" if flt["cs"] else "named-ci")]
     ks.append("root=" + c.get("root", "real"))
@@ -780,6 +972,8 @@ def impl(c):
                 except Exception as e:
                     out.append("error:" + exc_class(e))
         return {"glob": out}
+    if _is_chain(c):
+        return _impl_chain(c)
     from swh.model.from_disk import Directory
     res = {}
     t, flt, lim = c["tree"], c["filter"], c["limit"]
@@ -828,6 +1022,12 @@ def enc_filter(flt):
 def requests(c):
     if _is_glob(c):
         return ["glob %s %s" % (ph, th) for ph, th in c["pairs"]]
+    if _is_chain(c):
+        t, f = enc_chain(c), enc_filter(c["filter"])
+        lim = "-" if c["limit"] is None else str(c["limit"])
+        if c["chain"] > DEPTH_FINDING_FLOOR:    # the implementation is expected to give up: the model's root id is all that is used
+            return ["rootid %s %s id %s" % (f, lim, t)]
+        return ["rootid %s %s id %s" % (f, lim, t), "rootid %s - rev %s" % (f, t), "pruned %s %s" % (f, t)]
     t = enc_tree(c["tree"])
     f = enc_filter(c["filter"])
     lim = "-" if c["limit"] is None else str(c["limit"])
@@ -850,6 +1050,11 @@ def _ids(r):
 def model(c, resp):
     if _is_glob(c):
         return {"glob": [int(r[3:]) if r in ("ok 0", "ok 1") else r for r in resp]}
+    if _is_chain(c):
+        rid = lambda r: r[3:] if r.startswith("ok ") else r
+        if len(resp) == 1:
+            return {"rootid": rid(resp[0]), "rootid_rev": rid(resp[0]), "pruned_root": rid(resp[0])}
+        return {"rootid": rid(resp[0]), "rootid_rev": rid(resp[1]), "pruned_root": rid(resp[2])}
     res = {"ids": _ids(resp[0]), "ids_nolimit_rev": _ids(resp[1]), "pruned_root": resp[2][3:] if resp[2].startswith("ok ") else resp[2],
            "iterids": _ids(resp[4])}
     r = resp[3]
@@ -903,6 +1108,8 @@ def _long_link(t, lim):
 def oracle(c, ires, mres):
     if _is_glob(c):
         return None         # fnmatch / re are the standard library: disagreement is a model-validation failure (compare)
+    if _is_chain(c):
+        return _oracle_chain(c, ires, mres)
     if "error2" in ires:
         return "reading without limit / reading the pruned copy raised " + ires["error2"]
     should = _symlink_should_raise(c)
@@ -930,6 +1137,12 @@ def compare(c, ires, mres):
         for (ph, th), a, b in zip(c["pairs"], ires["glob"], mres["glob"]):
             if a != b:
                 return "glob model disagrees with fnmatch.translate+re: pattern %r text %r: re says %s, model says %s" % (unhx(ph), unhx(th), a, b)
+        return None
+    if _is_chain(c):
+        if mres["rootid"] != mres["rootid_rev"] or mres["rootid"] != mres["pruned_root"]:
+            return "MODEL: rootid (both orders) / node_id of the pruned tree disagree on a deep chain (model bug): %s" % str(mres)[:150]
+        if mres["rootid"] != ires["chain"]["levels"][0]:
+            return "root id of a deep chain differs between model (%s) and implementation (%s)" % (mres["rootid"], ires["chain"]["levels"][0])
         return None
     if mres["iterids"] != mres["ids"]:
         return "MODEL: the literal stack/queue model (from_disk_iter) and the recursive model disagree (model bug): %s" % str(mres["iterids"])[:60]
@@ -968,6 +1181,9 @@ def shrink(c):
             yield dict(c, pairs=c["pairs"][:n // 2])
             yield dict(c, pairs=c["pairs"][n // 2:])
         return
+    if _is_chain(c):
+        yield dict(c, chain=c["chain"] // 2)
+        yield dict(c, chain=c["chain"] - 1)
     for t in shrink_tree(c["tree"]):
         yield dict(c, tree=t)
     if c.get("fspell", "same") != "same":
@@ -1015,7 +1231,7 @@ def coq_cases(cases):
     prune_named + node_id, export and mt_id with H := Sha1.sha1 evaluated by vm_compute inside Coq vs the extracted driver,
     on small trees: the hand-written FIXED cases and the first small generated ones (extraction cross-check)"""
     from .c06 import coq_from_disk, coq_tree_bytes
-    small = [c for c in cases if not _is_glob(c) and not _is_pat(c["filter"])
+    small = [c for c in cases if not _is_glob(c) and not _is_chain(c) and not _is_pat(c["filter"])
              and count_nodes(c["tree"]) <= 10 and coq_tree_bytes(c["tree"]) <= 400][:16]
     cases[:] = small
     return coq_from_disk(ID, [(c, requests(c)) for c in small])
